@@ -921,7 +921,7 @@ func sortKeys(keys [][2]byte) {
 // depends on the table size rather than on the content. Related sequences, so
 // that the alignments are real ones.
 func alignLarge(c *Ctx, o alignOpts, gen func(r *rand.Rand, mi int, alpha []byte) (align.SubstitutionMatrix, bool)) {
-	shapes := [][2]int{{4100, 4100}, {70000, 250}, {40000, 20}, {30020, 14}}
+	shapes := [][2]int{{4100, 4100}, {70000, 250}, {40000, 20}, {30020, 14}, {8, 1<<19 - 1}, {1<<19 + 1, 5}}
 	if c.Thorough {
 		shapes = [][2]int{{4100, 4100}, {70000, 250}, {250, 70000}, {4096, 4096}, {4095, 4097}, {9000, 2100}, {1 << 20, 17}, {3, 1 << 23}, {40000, 20}, {30020, 14}, {14, 30021}}
 	}
@@ -1327,6 +1327,25 @@ func alignLargeCalls(c *Ctx, o alignOpts, gen func(r *rand.Rand, mi int, alpha [
 						if r.IntN(12) == 0 {
 							b[j] = alpha[r.IntN(len(alpha))]
 						}
+					}
+					if (t+hi+variant)%3 == 1 {
+						// a NON-SQUARE matrix: a uses only two of the symbols and the matrix has rows for those two only
+						// (plus the gap row), b and the columns keep all four — every pair an alignment of a with b can
+						// ask for is there, and nothing else
+						sub := alpha[:2]
+						for j := range a {
+							if a[j] != sub[0] && a[j] != sub[1] {
+								a[j] = sub[j%2]
+							}
+						}
+						m2 := align.SubstitutionMatrix{}
+						for key, v := range m {
+							if key[0] == gapB || key[0] == sub[0] || key[0] == sub[1] {
+								m2[key] = v
+							}
+						}
+						m = m2
+						k.Count("large_calls_with_non_square_matrices", 1)
 					}
 					if variant == 1 && t == 1 {
 						// Twenty large calls that PANIC as documented (a symbol the matrix does not score, met in
